@@ -667,9 +667,15 @@ def check_dominates(ctx):
     rets = nodes_of_type(ck, ast.Return)
     ctx.check(len(rets) == 1 and isinstance(rets[0].value, ast.Call) and call_name(rets[0].value) == "self._is_in_cache_and_valid", rets[0] if rets else ck, "check_call_in_cache answers through _is_in_cache_and_valid")
     # validation callback: falsy => entry cleared, miss
-    cb = [n for n in nodes_of_type(f, ast.If) if "cache_validation_callback" in unparse(n.test)]
-    ctx.check(bool(cb) and any(call_name(c) == "self.store_backend.clear_item" for s in cb[0].body for c in calls_in(s)) and isinstance(cb[0].body[-1], ast.Return) and is_const(cb[0].body[-1].value, False),
-              cb[0] if cb else f, "a failing validation callback clears the entry and reports a miss")
+    clr = [c for c in calls_in(f) if call_name(c) == "self.store_backend.clear_item"]
+    ret_false = [r for r in nodes_of_type(f, ast.Return) if is_const(r.value, False)]
+    okc = bool(clr)
+    for c in clr:
+        at = g.atoms_at(g.nodes_of(c))
+        okc = okc and any(unparse(a) == "self.cache_validation_callback is None" and not pol for (_, a, pol) in at) \
+            and any(isinstance(a, ast.Call) and call_name(a) == "self.cache_validation_callback" and not pol for (_, a, pol) in at) \
+            and g.every_path_from(g.nodes_of(c), g.nodes_of_all(ret_false), None, skip_exc=True)
+    ctx.check(okc, clr[0] if clr else f, "a failing validation callback clears the entry and reports a miss")
 
 
 def diff_wipes(ctx):
